@@ -6,6 +6,7 @@
 import Frost.Driver.Ops
 import Frost.Model.Wire
 import Frost.Model.Resume
+import Frost.Model.Secrets
 
 namespace Frost.Driver
 open Frost Frost.Wire
@@ -40,6 +41,16 @@ def pR1' (C : Codec F E) (s : String) : Option (Round1Package F E) :=
     | some cm, some r, some z => some ⟨cm, ⟨r, z⟩⟩
     | _, _, _ => none
   | _ => none
+
+def fmtShown (C : Codec F E) : Secrets.Shown F E → String
+  | .redacted => "<redacted>"
+  | .scalarPublic s => C.sS s
+  | .elem e => C.sE e
+  | .elems es => ",".intercalate (es.map C.sE)
+  | .num n => toString n
+
+def fmtDebug (C : Codec F E) (l : List (String × Secrets.Shown F E)) : String :=
+  "ok fields=" ++ ";".intercalate (l.map fun p => p.1 ++ ":" ++ fmtShown C p.2)
 
 /-- execute one serialization request on the model; `hdr` is the 5-byte header of the suite -/
 def runWireOp (S : Suite F E) (hdr : Bytes) (op : String) (a : Args) : String :=
@@ -181,6 +192,51 @@ def runWireOp (S : Suite F E) (hdr : Bytes) (op : String) (a : Args) : String :=
         let id ← arg a "id" C.pS
         pure (fmtOut C (fun kp => "kp=" ++ fmtKp C kp) (Resume.repairPart3 S hdr pkp ss id))
       | _ => none
+    | "wipe", "signingshare" => do
+      let v ← arg a "v" C.pS
+      pure ("ok v=" ++ C.sS (Secrets.scalar v))
+    | "wipe", "nonce" => do
+      let v ← arg a "v" C.pS
+      pure ("ok v=" ++ C.sS (Secrets.scalar v))
+    | "wipe", "dkg2package" => do
+      let v ← arg a "v" C.pS
+      pure ("ok v=" ++ C.sS (Secrets.scalar v))
+    | "wipe", "secretshare" => do
+      let v ← arg a "v" (pSS C)
+      pure ("ok v=" ++ fmtSS C (Secrets.secretShare v))
+    | "wipe", "keypackage" => do
+      let v ← arg a "v" (pKp C)
+      pure ("ok v=" ++ fmtKp C (Secrets.keyPackage v))
+    | "wipe", "nonces" => do
+      let v ← arg a "v" (pNonces C)
+      pure ("ok v=" ++ fmtNonces C (Secrets.nonces v))
+    | "wipe", "dkg1secret" => do
+      let v ← arg a "v" (pSp1 C)
+      pure ("ok v=" ++ fmtSp1 C (Secrets.round1Secret v))
+    | "wipe", "dkg2secret" => do
+      let v ← arg a "v" (pSp2 C)
+      pure ("ok v=" ++ fmtSp2 C (Secrets.round2Secret v))
+    | "debugfields", "signingshare" => do
+      let v ← arg a "v" C.pS
+      pure (fmtDebug C (Secrets.debugScalar v))
+    | "debugfields", "signingkey" => do
+      let v ← arg a "v" C.pS
+      pure (fmtDebug C (Secrets.debugScalar v))
+    | "debugfields", "secretshare" => do
+      let v ← arg a "v" (pSS C)
+      pure (fmtDebug C (Secrets.debugSecretShare v))
+    | "debugfields", "keypackage" => do
+      let v ← arg a "v" (pKp C)
+      pure (fmtDebug C (Secrets.debugKeyPackage v))
+    | "debugfields", "nonces" => do
+      let v ← arg a "v" (pNonces C)
+      pure (fmtDebug C (Secrets.debugNonces v))
+    | "debugfields", "dkg1secret" => do
+      let v ← arg a "v" (pSp1 C)
+      pure (fmtDebug C (Secrets.debugRound1Secret v))
+    | "debugfields", "dkg2secret" => do
+      let v ← arg a "v" (pSp2 C)
+      pure (fmtDebug C (Secrets.debugRound2Secret v))
     | "prim", _ => do
       let b ← arg a "b" parseHex
       let sc := fun (o : Outcome F F) => fmtOut C (fun s => "re=" ++ toHex (B.encScalar s)) o
